@@ -27,6 +27,7 @@ import (
 	"fmt"
 	"math/big"
 	"math/rand/v2"
+	"runtime/debug"
 	"testing"
 
 	"gitlab.com/yawning/obfs4.git/common/ntor"
@@ -523,6 +524,9 @@ func (st *decStats) flush(r *mon.Run) {
 func TestCheck(t *testing.T) {
 	r := mon.Start(t, "C07")
 	defer r.Finish()
+	// math/big allocates for every field operation while the live heap stays
+	// small: collect less often (16 shard processes share the machine).
+	defer debug.SetGCPercent(debug.SetGCPercent(1000))
 	r.Note("rule", "generation: (a) grid batches: PRNG upper parts x all 8 values of priv[0]&7, each under 4 tweaks (one systematic so that all 256 occur, 3 PRNG) and the first 2 upper parts of every batch under all 256 tweaks; (b) batches of shaped PRNG private keys (uniform / small / sparse / dense / near 2^254, p, 2^255) under 2 PRNG tweaks; (c) ntor.NewKeypair(true) over a seeded crypto/rand.Reader; (d) structured private keys (0..8, all-ones, every single bit, every all-ones-minus-one-bit, byte patterns) x all 8 low-bit values x 8 chosen tweaks (thorough: all 256). decoding: shaped PRNG strings, named edge strings, every representative of low-order / small / PRNG u-coordinates built with the reference inverse map; every string under the four settings of its two top bits. A generation call is one (priv, tweak); non-trivial/distinct = distinct private keys (each under 2..256 tweaks) and distinct 254-bit decode inputs. Coset = index k of the torsion point with pub = u(clamp(priv)*B + k*T8), found by reference Edwards arithmetic.")
 	r.Note("exhaustive_part", "all 256 tweaks for 16 private keys per grid batch and (thorough) for every structured key; all 8 values of priv[0]&7 for every grid upper part and structured pattern; all 256 single-bit and 256 all-ones-minus-one-bit strings as decode inputs and as private keys; all four top-bit settings for every decode input; every representative (<= 4) of each targeted u-coordinate")
 	r.Note("not_demanded", "which of the (up to four) representatives is returned, that it lies in [0,(p-1)/2], what the output buffers hold after a failure, how NewKeypair derives key and tweak from the CSPRNG, any statistical uniformity: reported as obs_* counters only")
